@@ -306,7 +306,9 @@ pub fn run(seed: u64, count: usize, thorough: bool, out: &mut Out) {
             let rlevels: Vec<usize> = if wlevel == 2 { vec![2, 0] } else { vec![wlevel] };
             // SEQRES records are written at the strict level and whenever a chain has a database reference
             let seqres = wlevel == 0 || pdb.chains().any(|c| c.database_reference().is_some());
-            round_trip(out, &pdb, wlevel, &rlevels, if seqres { "seqres" } else { "generated" });
+            // (a structure with a cell edge that does not fit its columns is labelled: what happens to it is the recorded finding)
+            let long_edge = pdb.unit_cell.as_ref().map_or(false, |c| c.a() >= 100_000.0 || c.b() >= 100_000.0 || c.c() >= 100_000.0);
+            round_trip(out, &pdb, wlevel, &rlevels, if long_edge { "long-edge" } else if seqres { "seqres" } else { "generated" });
         }
     }
     // structures numbered through the wrap-around of the serial-number columns, loose level
